@@ -504,7 +504,7 @@ class Size:
         """
         size_pattern = re.compile(
             r"^(((?P<value>\d+(\.\d+)?)(?P<unit>"
-            fr"{'|'.join([unit.value for unit in UnitEnum])}))|0)$")
+            fr"{'|'.join([unit.value for unit in UnitEnum])}))|0)\Z")
         match = size_pattern.search(string)
         if not match:
             raise CaptionReadSyntaxError(
